@@ -19,6 +19,7 @@ import random
 import shutil
 import struct
 import tempfile
+import time
 from concurrent.futures import ThreadPoolExecutor
 
 import vlib
@@ -460,10 +461,17 @@ def run_harness(ck, harness, iodir, reqs):
     """answers of the harness.  It answers one full line per request before reading the next one (cin is
     tied to cout), so after an abort (sanitizer, crash) the request without answer is the culprit: it
     gets the answer 'crash' and the harness is restarted on the requests that follow."""
-    impl, crashes, start = [], [], 0
+    impl, crashes, start, waits = [], [], 0, 0
     while start < len(reqs):
         text = "".join(encode(q) + "\n" for q in reqs[start:])
         p = ck.run([harness, iodir], input=text, timeout=3000)
+        if p.returncode == 127 and not p.stdout and "error while loading shared libraries" in p.stderr and waits < 10:
+            # a prebuilt library of the build tree is being relinked by a concurrent ninja run: the harness
+            # did not start at all; wait for the link to finish
+            waits += 1
+            ck.log("harness did not start (%s): retrying in 30s" % p.stderr.strip()[-160:])
+            time.sleep(30)
+            continue
         out = p.stdout.splitlines()[:len(reqs) - start]
         impl += out
         if p.returncode == 0 or start + len(out) >= len(reqs):
